@@ -854,19 +854,21 @@ theorem mergeLinear_go_spec (ho : Order lt) (cfg : Cfg) (hmax : 0 < cfg.maxCap) 
     (Tree.mergeLinear.go lt cfg fuel src dst pos dpos).2.toList =
         (src.toList.drop (src.idxOf pos)).foldl (Spec.insert1 lt cfg.multi) dst.toList ∧
     (Tree.mergeLinear.go lt cfg fuel src dst pos dpos).2.WF cfg ∧
-    SortedBy lt cfg.multi (Tree.mergeLinear.go lt cfg fuel src dst pos dpos).2.toList := by
+    SortedBy lt cfg.multi (Tree.mergeLinear.go lt cfg fuel src dst pos dpos).2.toList ∧
+    (Tree.mergeLinear.go lt cfg fuel src dst pos dpos).1.WF cfg ∧
+    (Tree.mergeLinear.go lt cfg fuel src dst pos dpos).1.toList.Sublist src.toList := by
   induction fuel generalizing src dst pos dpos with
   | zero =>
     have hle := validPos_idx_le_len cfg src hws pos hv
     have : src.idxOf pos = src.toList.length := by omega
     simp only [Tree.mergeLinear.go]
-    exact ⟨by rw [this]; simp, hwd, hsd⟩
+    exact ⟨by rw [this]; simp, hwd, hsd, hws, List.Sublist.refl _⟩
   | succ n ih =>
     simp only [Tree.mergeLinear.go]
     by_cases hend : pos = src.endPos
     · rw [if_pos hend]
       have := (tree_pos_eq_end_iff cfg src hws pos hv).mp hend
-      exact ⟨by rw [this]; simp, hwd, hsd⟩
+      exact ⟨by rw [this]; simp, hwd, hsd, hws, List.Sublist.refl _⟩
     · rw [if_neg hend]
       have hlt : src.idxOf pos < src.toList.length := by
         have h1 := validPos_idx_le_len cfg src hws pos hv
@@ -925,7 +927,7 @@ theorem mergeLinear_go_spec (ho : Order lt) (cfg : Cfg) (hmax : 0 < cfg.maxCap) 
           have h1 : (src.toList.take (src.idxOf pos)).length = src.idxOf pos := by simp; omega
           rw [List.drop_append_of_le_length (by omega), List.drop_of_length_le (by omega)]
           simp
-        obtain ⟨i1, i2, i3⟩ := ih (src.remove cfg pos).1 (dst.add cfg dp x).1 r2 hss' a2 hsorted
+        obtain ⟨i1, i2, i3, i4, i5⟩ := ih (src.remove cfg pos).1 (dst.add cfg dp x).1 r2 hss' a2 hsorted
           (src.remove cfg pos).2 ((dst.add cfg dp x).1.next (dst.add cfg dp x).2) r4 m2
           (by rw [r1, r3, List.length_eraseIdx_of_lt hlt]; omega)
           (by
@@ -944,7 +946,8 @@ theorem mergeLinear_go_spec (ho : Order lt) (cfg : Cfg) (hmax : 0 < cfg.maxCap) 
               subst this
               rw [List.getElem?_insertIdx_self, if_pos hdple] at he
               cases he; exact hxs)
-        exact ⟨by rw [i1, hsub, a1, hdrop, List.foldl_cons, hins], i2, i3⟩
+        exact ⟨by rw [i1, hsub, a1, hdrop, List.foldl_cons, hins], i2, i3, i4,
+          i5.trans (by rw [r1]; exact List.eraseIdx_sublist _ _)⟩
       · rw [if_neg hcond]
         simp only [Bool.or_eq_true, not_or, Bool.not_eq_true] at hcond
         obtain ⟨hm, hng⟩ := hcond
@@ -970,7 +973,7 @@ theorem mergeLinear_go_spec (ho : Order lt) (cfg : Cfg) (hmax : 0 < cfg.maxCap) 
           have hdlt : dst.idxOf dp < dst.toList.length := lt_of_getElem? hy
           have hved := validElem_of_idx_lt cfg dst hwd dp k1 hdlt
           obtain ⟨d1, d2⟩ := tree_next_spec cfg dst hwd dp hved
-          obtain ⟨i1, i2, i3⟩ := ih src dst hws hss hwd hsd (src.next pos) (dst.next dp) n2 d2 (by omega)
+          obtain ⟨i1, i2, i3, i4, i5⟩ := ih src dst hws hss hwd hsd (src.next pos) (dst.next dp) n2 d2 (by omega)
             (by
               intro j e i s hj he hi hs'
               rw [d1] at hj; rw [n1] at hi
@@ -989,14 +992,15 @@ theorem mergeLinear_go_spec (ho : Order lt) (cfg : Cfg) (hmax : 0 < cfg.maxCap) 
                 | false =>
                   have := ho.le_trans s y x h hng
                   rw [this] at hxs; cases hxs)
-          exact ⟨by rw [i1, n1, hdrop, List.foldl_cons, hskip], i2, i3⟩
+          exact ⟨by rw [i1, n1, hdrop, List.foldl_cons, hskip], i2, i3, i4, i5⟩
 
 /-- `pvMergeToLinear` gives the destination the same sequence as inserting the source elements one after the other -/
 theorem tree_mergeLinear_spec (ho : Order lt) (cfg : Cfg) (hmax : 0 < cfg.maxCap) (src dst : Tree α)
     (hws : src.WF cfg) (hss : SortedBy lt cfg.multi src.toList) (hwd : dst.WF cfg)
     (hsd : SortedBy lt cfg.multi dst.toList) :
     (Tree.mergeLinear lt cfg src dst).2.toList = src.toList.foldl (Spec.insert1 lt cfg.multi) dst.toList ∧
-    (Tree.mergeLinear lt cfg src dst).2.WF cfg ∧ SortedBy lt cfg.multi (Tree.mergeLinear lt cfg src dst).2.toList := by
+    (Tree.mergeLinear lt cfg src dst).2.WF cfg ∧ SortedBy lt cfg.multi (Tree.mergeLinear lt cfg src dst).2.toList ∧
+    (Tree.mergeLinear lt cfg src dst).1.WF cfg ∧ (Tree.mergeLinear lt cfg src dst).1.toList.Sublist src.toList := by
   obtain ⟨b1, b2, _, _⟩ := tree_begin_end_spec cfg src hws
   obtain ⟨c1, c2, _, _⟩ := tree_begin_end_spec cfg dst hwd
   have := mergeLinear_go_spec lt ho cfg hmax (src.count + dst.count + 1) src dst hws hss hwd hsd src.beginPos
@@ -1086,13 +1090,14 @@ theorem tree_mergeTo_spec (ho : Order lt) (cfg : Cfg) (hmax : 0 < cfg.maxCap) (s
     (hws : src.WF cfg) (hss : SortedBy lt cfg.multi src.toList) (hwd : dst.WF cfg)
     (hsd : SortedBy lt cfg.multi dst.toList) :
     (Tree.mergeTo lt cfg src dst).2.toList = Spec.merge lt cfg.multi src.toList dst.toList ∧
-    (Tree.mergeTo lt cfg src dst).2.WF cfg ∧ SortedBy lt cfg.multi (Tree.mergeTo lt cfg src dst).2.toList := by
+    (Tree.mergeTo lt cfg src dst).2.WF cfg ∧ SortedBy lt cfg.multi (Tree.mergeTo lt cfg src dst).2.toList ∧
+    (Tree.mergeTo lt cfg src dst).1.WF cfg := by
   unfold Tree.mergeTo
   by_cases hs0 : src.count = 0
   · rw [if_pos hs0]
     have : src.toList = [] := by
       have := hws.count; rw [hs0] at this; exact List.eq_nil_of_length_eq_zero this.symm
-    exact ⟨by simp [Spec.merge, this], hwd, hsd⟩
+    exact ⟨by simp [Spec.merge, this], hwd, hsd, hws⟩
   · rw [if_neg hs0]
     have hsne : src.toList ≠ [] := by
       intro h; apply hs0; rw [hws.count, h]; rfl
@@ -1104,7 +1109,7 @@ theorem tree_mergeTo_spec (ho : Order lt) (cfg : Cfg) (hmax : 0 < cfg.maxCap) (s
     · rw [if_pos hd0]
       have : dst.toList = [] := by
         have := hwd.count; rw [hd0] at this; exact List.eq_nil_of_length_eq_zero this.symm
-      exact ⟨by simp [Spec.merge, this, ha], hws, hss⟩
+      exact ⟨by simp [Spec.merge, this, ha], hws, hss, hwd⟩
     · rw [if_neg hd0]
       have hdne : dst.toList ≠ [] := by
         intro h; apply hd0; rw [hwd.count, h]; rfl
@@ -1144,7 +1149,7 @@ theorem tree_mergeTo_spec (ho : Order lt) (cfg : Cfg) (hmax : 0 < cfg.maxCap) (s
       · rw [if_pos h1, if_pos h1]
         obtain ⟨m1, ⟨dm, m2⟩, m3⟩ := mergeFast_spec cfg hmax hbs hbd (by rw [hrsl]; exact hsne) (by rw [hrdl]; exact hdne)
         rw [hrsl, hrdl] at m1
-        refine ⟨by rw [toList_mk, m1], ⟨?_, ?_, ?_⟩, ?_⟩
+        refine ⟨by rw [toList_mk, m1], ⟨?_, ?_, ?_⟩, ?_, Tree.wf_empty cfg⟩
         · rw [toList_mk, m1, List.length_append]; simp only; omega
         · intro r h; cases h; exact ⟨dm, m2⟩
         · intro r h; cases h; exact m3 (hws.caps rs hrs) (hwd.caps rd hrd)
@@ -1155,7 +1160,7 @@ theorem tree_mergeTo_spec (ho : Order lt) (cfg : Cfg) (hmax : 0 < cfg.maxCap) (s
         · rw [if_pos h2, if_pos h2]
           obtain ⟨m1, ⟨dm, m2⟩, m3⟩ := mergeFast_spec cfg hmax hbd hbs (by rw [hrdl]; exact hdne) (by rw [hrsl]; exact hsne)
           rw [hrsl, hrdl] at m1
-          refine ⟨by rw [toList_mk, m1], ⟨?_, ?_, ?_⟩, ?_⟩
+          refine ⟨by rw [toList_mk, m1], ⟨?_, ?_, ?_⟩, ?_, Tree.wf_empty cfg⟩
           · rw [toList_mk, m1, List.length_append]; simp only; omega
           · intro r h; cases h; exact ⟨dm, m2⟩
           · intro r h; cases h; exact m3 (hwd.caps rd hrd) (hws.caps rs hrs)
@@ -1163,9 +1168,10 @@ theorem tree_mergeTo_spec (ho : Order lt) (cfg : Cfg) (hmax : 0 < cfg.maxCap) (s
             exact sortedBy_append lt ho cfg.multi _ _ c d0 hsd hss hc hd ((isOrderedItems_iff lt cfg c d0).mp h2)
         · rw [if_neg h2, if_neg h2]
           split
-          · obtain ⟨g1, g2, g3, _, _⟩ := tree_mergeGeneric_spec lt ho cfg hmax src dst hws hwd hsd
-            exact ⟨g1, g2, g3⟩
-          · exact tree_mergeLinear_spec lt ho cfg hmax src dst hws hss hwd hsd
+          · obtain ⟨g1, g2, g3, g4, _⟩ := tree_mergeGeneric_spec lt ho cfg hmax src dst hws hwd hsd
+            exact ⟨g1, g2, g3, g4⟩
+          · obtain ⟨g1, g2, g3, g4, _⟩ := tree_mergeLinear_spec lt ho cfg hmax src dst hws hss hwd hsd
+            exact ⟨g1, g2, g3, g4⟩
 
 end mergeTo
 
